@@ -66,3 +66,26 @@ PROPS["C07"] = dict(
     jobs=lambda tier: [per_format("faults", "^TestC07$", 1500 if tier == "quick" else 30000, formats=STATEFUL,
                                   timeout=900 if tier == "quick" else 3400)],
 )
+
+PROPS["C08"] = dict(
+    title="Depacketizers on hostile packets: no panic, bounded memory, stable output",
+    pkg="codec",
+    rule=("three generators per decoder (15 decoders): (hostile) rapid programs of 1..30 (thorough 1..60) operations, each emitting 1..300 "
+          "(thorough 1..3000) packets that are format-aware start / middle / end / single fragments with adversarial header fields, raw bytes, or "
+          "valid encoded frames with one mutated byte, with sequence gaps, timestamp changes and markers drawn; every returned frame is "
+          "snapshotted and re-compared after the next 4 calls and at the end, and checked against the documented maximum size and unit count; "
+          "H264/H265 PTSEqualsDTS runs on every packet; (growth) a start fragment followed by 40000 (thorough 120000) packets of one kind with "
+          "100..1400-byte payloads, heap measured after GC with the decoder alive and compared with the format bound + 3 MiB; (tiny) 1.5 M empty or "
+          "1-byte fragments (excluded for the decoders of the open finding). Non-trivial: >=1 returned frame followed by >=10 more packets, or a run "
+          "of >=1000 packets of one fragment kind. Distinct by case hash."),
+    assumptions=[
+        "retained memory is HeapAlloc after two GCs minus the pre-case baseline, one decoder alive, each packet payload in its own exactly-sized buffer (a caller that hands in slices of larger receive buffers retains those buffers instead)",
+        "format bound = sum of the decoder's documented caps (fragment reassembly + frame assembly), e.g. 2 x MaxAccessUnitSize for H264/H265; M-JPEG 2^24 + a packet (24-bit fragment offset)",
+        "a hang (non-terminating Decode) shows up as a time-out, which the driver reports as inconclusive, not as a violation",
+    ],
+    jobs=lambda tier: [
+        per_format("hostile", "^TestC08$", 600 if tier == "quick" else 15000, timeout=900 if tier == "quick" else 3400),
+        per_format("growth", "^TestC08Growth$", 3 if tier == "quick" else 16, timeout=900 if tier == "quick" else 3400, shrinktime="5s"),
+        per_format("tiny", "^TestC08Tiny$", 1 if tier == "quick" else 3, formats=STATEFUL, timeout=900, shrinktime="1s"),
+    ],
+)
